@@ -6,6 +6,7 @@ import (
 	"strings"
 	"testing"
 
+	"github.com/pip-services3-gox/pip-services3-expressions-gox/csv"
 	rio "github.com/pip-services3-gox/pip-services3-expressions-gox/io"
 	"github.com/pip-services3-gox/pip-services3-expressions-gox/tokenizers"
 	"pgregory.net/rapid"
@@ -131,6 +132,41 @@ func checkC04With(t tokenizers.ITokenizer, c c04Case) *evid.Fail {
 	}
 	if tksString(buf) != tksString(toks) {
 		return evid.F("tokenizebuffer-differs", "TokenizeBuffer %s vs NextToken loop %s", tksString(buf), tksString(toks))
+	}
+	// the presence of a next token queried twice before every fetch: the same tokens, the end-of-input marker included
+	if sum%4 == 1 || len(c.Input) <= 3 {
+		asked, f := tokenizeCapped(t, c.Input, 2)
+		if f != nil {
+			return f
+		}
+		if tksString(asked) != tksString(toks) {
+			return evid.F("has-next-queries-change-tokens", "input %q: plain NextToken loop %s ; with two HasNextToken queries before every fetch %s", c.Input, tksString(toks), tksString(asked))
+		}
+	}
+	// a CSV tokenizer whose caller sets the very same separators and quote symbols again in the middle of the text,
+	// with a look-ahead pending: nothing of the text is lost over it
+	if ct, ok := t.(*csv.CsvTokenizer); ok && (sum%4 == 2 || len(c.Input) <= 3) {
+		var again []tk
+		if g := guard(func() {
+			ct.SetReader(rio.NewStringScanner(c.Input))
+			for n := 0; n <= len([]rune(c.Input))+2; n++ {
+				if n == 1+sum%3 {
+					ct.HasNextToken()
+					ct.SetFieldSeparators(append([]rune{}, ct.FieldSeparators()...))
+					ct.SetQuoteSymbols(append([]rune{}, ct.QuoteSymbols()...))
+				}
+				x := ct.NextToken()
+				if x == nil {
+					break
+				}
+				again = append(again, tk{x.Type(), x.Value(), x.Line(), x.Column()})
+			}
+		}); g != nil {
+			return g
+		}
+		if tksString(again) != tksString(toks) {
+			return evid.F("concat-mismatch:reconfigured-mid-text", "input %q: NextToken loop %s ; with the same separators and quote symbols set again after token %d (a look-ahead pending) %s", c.Input, tksString(toks), 1+sum%3, tksString(again))
+		}
 	}
 	// the remaining entry points (for every short input and a deterministic eighth of the longer ones)
 	if n := len(c.Input); n > 6 && (n+int(c.Input[0])+int(c.Input[n-1]))%8 != 0 {
